@@ -27,6 +27,11 @@ ASSUMPTIONS = ["belief-tracking policies are started with a belief whose support
                "either visit-counting convention for the closing state of a roll-out is accepted"]
 
 
+def _size(rng):
+    # mostly small models (<= 6 non-absorbing states); a few per cent are larger
+    return dict(min_states=10, max_states=20, max_actions=4) if rng.random() < 0.04 else {}
+
+
 def preload():
     import msdm.core.mdp.policy  # noqa
     import msdm.core.pomdp.policy  # noqa
@@ -40,7 +45,7 @@ def gen_case(rng, tier, idx):
     sched = gen_sched(rng, ('P',) if plain else ('P', 'U', 'R', 'X'), budget_choices=(5, 20, 60))
     if rng.random() < 0.65:
         long_run = rng.random() < 0.03      # long roll-outs with strong discounting: discount**t leaves the normal float range
-        spec = gen_mdp_spec(rng, proper=(rng.random() < 0.7) and not long_run, discounts=(0.1, 0.5) if long_run else (0.1, 0.5, 0.8, 0.9, 0.95, 0.99, 1.0))
+        spec = gen_mdp_spec(rng, **_size(rng), proper=(rng.random() < 0.7) and not long_run, discounts=(0.1, 0.5) if long_run else (0.1, 0.5, 0.8, 0.9, 0.95, 0.99, 1.0))
         v = MDPView(spec)
         kind = rng.choice(('functional', 'tabular', 'deterministic'))
         pol = []
